@@ -1,7 +1,7 @@
 """(Re)generate /verif/MANIFEST.json from the table below."""
 import json
 props = [json.loads(l) for l in open("/verif/properties.jsonl")]
-BASE_NOTE = ("Trusted base: the pyvc VC generator's encoding of Python semantics (assumptions A1-A11 + allocation model, "
+BASE_NOTE = ("Trusted base: the pyvc VC generator's encoding of Python semantics (assumptions A1-A13 + allocation model, "
              "listed in every evidence file), z3 4.15/5.1 + cvc5 1.0.3, the Lean/Mathlib-checked list lemma base behind the rewrite "
              "rules. Contracts are sidecar files in /verif/contracts; the verified text is the AST of /repo's working tree, re-read every run.")
 CLAIMED = {
